@@ -43,6 +43,12 @@ var checks = map[string]func(*core.Ctx){
 	"C18": session.RunC18,
 	"C19": peerq.Run,
 	"C20": codec.Run,
+	// development aid (not registered): the session-level cluster stage of C05 alone
+	"XCLUSTER": func(c *core.Ctx) {
+		c.Level = "model_checking"
+		session.ClusterStage(c, "cluster differs from the one-broker specification at quiescence", 2, false, []string{"pubsub", "presence", "ending"}, 30, 14)
+		c.Finish()
+	},
 }
 
 func main() {
